@@ -670,7 +670,7 @@ def auto_flag_discipline(ctx):
             r10.inst({'recursive_call': mirq.site(b, bb), 'auto_allowed': a['const'].get('s') if 'const' in a else 'not a constant'}, ok=ok, kind=(b.nid, bb))
             if not ok:
                 r10.fail('get_complete_type/auto-inherited', mirq.site(b, bb), 'a component type is parsed with the caller\'s auto permission: `$` nested inside a type (foo{Optional<$>}) is accepted, reaches overload binding, and rendering it in an error message hits unreachable!()')
-    r10.need(2)
+    r10.need(1)
 
 
 def one_source_text(ctx):
